@@ -1438,7 +1438,7 @@ type sll struct {
 func (op *sll) Run(ctx *Context, _ map[string]int32, pc int32, memory []int8, sequenceID int32) (Execution, error) {
 	rs1 := registerRead(ctx, op.forward, op.rs1, sequenceID)
 	rs2 := registerRead(ctx, op.forward, op.rs2, sequenceID)
-	register, value := IsRegisterChange(op.rd, rs1<<uint(rs2))
+	register, value := IsRegisterChange(op.rd, rs1<<(uint32(rs2)&31))
 	return Execution{
 		RegisterChange: true,
 		Register:       register,
@@ -1479,7 +1479,7 @@ type slli struct {
 
 func (op *slli) Run(ctx *Context, _ map[string]int32, pc int32, memory []int8, sequenceID int32) (Execution, error) {
 	rs := registerRead(ctx, op.forward, op.rs, sequenceID)
-	register, value := IsRegisterChange(op.rd, rs<<uint(op.imm))
+	register, value := IsRegisterChange(op.rd, rs<<(uint32(op.imm)&31))
 	return Execution{
 		RegisterChange: true,
 		Register:       register,
